@@ -16,7 +16,10 @@ import time
 from . import VERIF, REPO
 
 NSHARDS = int(os.environ.get('VERIF_JOBS', '16'))
+# where evidence/ and replays/ are written: /verif, except for self-tests on scratch copies
+OUT = os.environ.get('VERIF_OUT', VERIF)
 MAX_VIOLATIONS_KEPT = 12
+MAX_REPLAYS_WRITTEN = 8
 
 
 def _plans(prop):
@@ -44,10 +47,9 @@ def expand_sources(prop, tier):
                 seeds = seeds * 3
             out.append(dict(kind=kind, name=name, seeds=seeds, runner=runner))
         elif kind == 'cases':
-            _, name, n = src[:3]
-            factor = src[3] if len(src) > 3 else plans.THOROUGH_FACTOR
+            _, name, n, n_thorough = src
             if tier == 'thorough':
-                n *= factor
+                n = n_thorough
             out.append(dict(kind=kind, name=name, n=n, runner='cases'))
     return out
 
@@ -96,6 +98,7 @@ def iter_cases(prop, tier, seed, shard, nshards):
                     yield label, thunk
         else:
             from .synccases import CASES
+            from . import dotcases                      # noqa: registers the C20 cases
             fn = CASES[src['name']]
             for i in range(src['n']):
                 gi += 1
@@ -121,7 +124,7 @@ def jsonable(x):
 
 def worker(prop, tier, seed, shard, nshards, outpath):
     t0 = time.perf_counter()
-    res = dict(cases=0, discarded=0, events=0, ties=0, counters={}, violations=[], nviol=0,
+    res = dict(cases=0, discarded=0, events=0, ties=0, counters={}, violations=[], nviol=0, nviol_by_key={},
                fingerprints=[], nontrivial=[], samples={}, per_source={}, errors=[], tags={})
     fps, ntfps = set(), set()
     counters = {}
@@ -153,6 +156,8 @@ def worker(prop, tier, seed, shard, nshards, outpath):
             res['samples'][label] = jsonable(case.sample)
         if case.out.violations:
             res['nviol'] += 1
+            vkey = getattr(case.out, 'key', None) or case.out.violations[0][0]
+            res['nviol_by_key'][vkey] = res['nviol_by_key'].get(vkey, 0) + 1
             if len(res['violations']) < MAX_VIOLATIONS_KEPT:
                 clause, message = case.out.violations[0]
                 res['violations'].append(dict(
@@ -166,6 +171,17 @@ def worker(prop, tier, seed, shard, nshards, outpath):
     res['wall'] = time.perf_counter() - t0
     with open(outpath, 'w') as f:
         json.dump(res, f)
+
+
+def _diverse(violations):
+    """one violation per (clause, source) first, so that the replay files
+    written show the different ways the property fails"""
+    seen, first, rest = set(), [], []
+    for v in violations:
+        k = (v['clause'], v['source'])
+        (rest if k in seen else first).append(v)
+        seen.add(k)
+    return first + rest
 
 
 # ------------------------------------------------------------------ known findings
@@ -195,7 +211,7 @@ def level_of(prop):
 def run_check(prop, tier, seed):
     from . import plans
     t0 = time.time()
-    scratch = os.path.join(VERIF, '.scratch', '%s-%s-%d' % (prop, tier, os.getpid()))
+    scratch = os.path.join(OUT, '.scratch', '%s-%s-%d' % (prop, tier, os.getpid()))
     os.makedirs(scratch, exist_ok=True)
     nshards = NSHARDS
     env = dict(os.environ, PYTHONHASHSEED='0', VERIF_REPO=REPO)
@@ -208,7 +224,7 @@ def run_check(prop, tier, seed):
                                        stderr=subprocess.STDOUT), outpath))
     watchdog = float(os.environ.get('VERIF_WATCHDOG', 1500 if tier == 'quick' else 6 * 3600))
     inconclusive = []
-    merged = dict(cases=0, discarded=0, events=0, ties=0, nviol=0, counters={}, violations=[],
+    merged = dict(cases=0, discarded=0, events=0, ties=0, nviol=0, nviol_by_key={}, counters={}, violations=[],
                   samples={}, per_source={}, errors=[], tags={})
     fps, ntfps = set(), set()
     for shard, (proc, outpath) in enumerate(procs):
@@ -232,6 +248,8 @@ def run_check(prop, tier, seed):
             merged['per_source'][k] = merged['per_source'].get(k, 0) + v
         for k, v in res['tags'].items():
             merged['tags'][k] = merged['tags'].get(k, 0) + v
+        for k, v in res['nviol_by_key'].items():
+            merged['nviol_by_key'][k] = merged['nviol_by_key'].get(k, 0) + v
         merged['violations'] += res['violations']
         for k, v in res['samples'].items():
             merged['samples'].setdefault(k, v)
@@ -242,7 +260,7 @@ def run_check(prop, tier, seed):
         os.unlink(os.path.join(scratch, f))
     os.rmdir(scratch)
     try:
-        os.rmdir(os.path.join(VERIF, '.scratch'))
+        os.rmdir(os.path.join(OUT, '.scratch'))
     except OSError:
         pass
     for err in merged['errors']:
@@ -256,15 +274,17 @@ def run_check(prop, tier, seed):
             seen_known.setdefault(v['key'], v)
         else:
             new.append(v)
-    replay_dir = os.path.join(VERIF, 'replays', prop)
+    n_new = sum(v for k, v in merged['nviol_by_key'].items() if k not in known)
+    n_known = merged['nviol'] - n_new
+    replay_dir = os.path.join(OUT, 'replays', prop)
     lines = []
-    for v in new[:MAX_VIOLATIONS_KEPT]:
+    for v in _diverse(new)[:MAX_REPLAYS_WRITTEN]:
         os.makedirs(replay_dir, exist_ok=True)
-        body = dict(property=prop, clause=v['clause'], key=v['key'], message=v['message'], source=v['source'],
+        body = dict(property=prop, clause=v['clause'], mechanism=v['key'], message=v['message'], source=v['source'],
                     more=v['more'], **v['replay'])
         digest = hashlib.md5(json.dumps(body, sort_keys=True).encode()).hexdigest()[:12]
         path = os.path.join('replays', prop, digest + '.json')
-        with open(os.path.join(VERIF, path), 'w') as f:
+        with open(os.path.join(OUT, path), 'w') as f:
             json.dump(body, f, indent=1)
         lines.append("VIOLATION property=%s replay=%s" % (prop, path))
         lines.append("  clause=%s source=%s: %s" % (v['clause'], v['source'], v['message']))
@@ -297,13 +317,14 @@ def run_check(prop, tier, seed):
         shards=nshards,
         verdict='violated' if new else ('inconclusive' if inconclusive else 'held on what was observed'),
         known_findings_seen=sorted(seen_known),
+        known_finding_cases=n_known,
         inconclusive_reasons=inconclusive,
         exhaustive=False,
     )
     evidence = dict(property_id=prop, tier=tier, seed=int(seed), level=level_of(prop), coverage=coverage,
-                    assumptions=_assumptions(prop), wall_s=round(wall, 2), violations=merged['nviol'])
-    os.makedirs(os.path.join(VERIF, 'evidence'), exist_ok=True)
-    with open(os.path.join(VERIF, 'evidence', prop + '.json'), 'w') as f:
+                    assumptions=_assumptions(prop), wall_s=round(wall, 2), violations=n_new)
+    os.makedirs(os.path.join(OUT, 'evidence'), exist_ok=True)
+    with open(os.path.join(OUT, 'evidence', prop + '.json'), 'w') as f:
         json.dump(evidence, f, indent=1, sort_keys=False)
 
     print("%s tier=%s seed=%s repo=%s: %d cases (%d distinct, %d distinct non-trivial), %d events, "
@@ -316,7 +337,8 @@ def run_check(prop, tier, seed):
     for line in lines:
         print(line)
     if new:
-        print("%s: %d violating case(s) (%d kept as replay files)" % (prop, merged['nviol'], len(new)))
+        print("%s: %d violating case(s) among %d, %d replay file(s) written"
+              % (prop, n_new, merged['cases'], min(len(new), MAX_REPLAYS_WRITTEN)))
         return 1
     if inconclusive:
         for reason in inconclusive:
